@@ -4,14 +4,14 @@ ENTRY = {'coq_dir': 'C20',
  'cases': {'quick': 4000, 'thorough': 40000},
  'consts': ['BITSWAP_MAX_MESSAGE_SIZE', 'BITSWAP_MAX_BATCH_SIZE', 'BITSWAP_EMPTY_MESSAGE_SIZE'],
  'nontrivial_min_trace': 6,
- 'rule': 'eight seeded case streams, mixed 30/25/4/29/5/4/2/1: (1) receiving — 1-6 (thorough 1-12) payload entries per case, prefixes built '
-         'from versions {0,1,2,3,127,128,2^64-1}, codecs {raw,dag-pb,...,2^64-1}, all 12 compiled-in hash functions plus 8 unsupported '
-         'codes, multihash lengths around the u8 limit, then byte-level mutations (truncation, trailing bytes, non-minimal and ten-byte '
-         'varints, bit flips, empty prefix); payloads of 0 B-70 KB (1 MiB thorough) from a pool of 40 ids so that one prefix meets '
-         'different data; the real block_to_response result (CID fields, digest bytes, payload identity) is compared with the model fed '
-         'with digests the harness computed itself; (2) sending — queues of 0-60 (thorough 0-300) blocks with CID shapes giving 4-23 byte '
-         'prefixes, data lengths around the limits and the varint length boundaries, limits drawn from {0..2^40} and in 4% of the cases '
-         'the shipped limits with MiB-sized blocks; every batch of the real extract_next_batch, the encoded length of the real '
+ 'rule': 'eight seeded case streams, mixed 30/25/4/29/5/4/2/1: (1) receiving — 1-6 (thorough 1-12) payload entries per case, prefixes '
+         'built from versions {0,1,2,3,127,128,2^64-1}, codecs {raw,dag-pb,...,2^64-1}, all 12 compiled-in hash functions plus 8 '
+         'unsupported codes, multihash lengths around the u8 limit, then byte-level mutations (truncation, trailing bytes, non-minimal and '
+         'ten-byte varints, bit flips, empty prefix); payloads of 0 B-70 KB (1 MiB thorough) from a pool of 40 ids so that one prefix '
+         'meets different data; the real block_to_response result (CID fields, digest bytes, payload identity) is compared with the model '
+         'fed with digests the harness computed itself; (2) sending — queues of 0-60 (thorough 0-300) blocks with CID shapes giving 4-23 '
+         'byte prefixes, data lengths around the limits and the varint length boundaries, limits drawn from {0..2^40} and in 4% of the '
+         'cases the shipped limits with MiB-sized blocks; every batch of the real extract_next_batch, the encoded length of the real '
          'blocks_message and its re-decoded (prefix bytes, data) entries are compared with the model; (3) end to end — two litep2p nodes '
          'over TCP loopback, the real send_response on one side and on_message_received on the other with the shipped limits: the blocks '
          "of every BitswapEvent::Response are compared with the model's messages; (4) the real Bitswap::run event loop polled by hand on a "
@@ -28,17 +28,20 @@ ENTRY = {'coq_dir': 'C20',
          'fail after a byte budget or cannot be opened; ConnectionClosed / ConnectionEstablished / a connection whose command channel died '
          '/ DialFailure, and the answer of TransportManagerHandle::dial forced to NoAddressAvailable / Ok / AlreadyConnected / dial in '
          'progress; in 0.4% (thorough 0.8%) of the cases one bulk command of 40 000-80 000 entries (requests, presences, tiny blocks, in '
-         'runs of 1,2,3,.. equal entries) so that the shipped MAX_MESSAGE_SIZE is what splits the real send_request / send_response; after '
-         "every operation the BitswapEvents and every byte written (complete frames decoded again with the crate's prost schema: wantlist "
-         'entries, presences, block prefixes and data, message lengths, entries run-length encoded; and the length of an incomplete frame) '
-         "are compared with the model, and the oracle checks that the messages carry exactly the entries due at that point of the model's "
-         'state, once and in order, each message within the limits; (5) presence batching — 0-60 (thorough 0-300) presences with limits '
-         '{0..2^40}: every batch of the real extract_next_presence_batch, the length of the real presences_message, its decoded entries '
-         'and its bytes (compared with the Coq encoder byte for byte); (6) request batching — the same for extract_next_want_batch / '
-         'request_message with the loop of send_request; (7) blocks_message on 0-6 blocks given with their data (0-300 B): the bytes '
-         'compared with the Coq encoder; (8) end to end again — a send_request of 0-9 wants followed by a send_response of 0-6 '
-         'presences and 0-10 honest blocks (0 B-MAX_BATCH_SIZE+1) between the two nodes of stream 3: every BitswapEvent::Request / '
-         'Response of the remote user, message by message; non-trivial = trace of >= 6 numbers; distinct = distinct (case, trace) pairs',
+         'runs of 1,2,3,.. equal entries) so that the shipped MAX_MESSAGE_SIZE is what splits the real send_response and what the one '
+         'message of the real send_request fits or exceeds; after every operation the BitswapEvents and every byte written (complete '
+         "frames decoded again with the crate's prost schema: wantlist entries, presences, block prefixes and data, message lengths, "
+         'entries run-length encoded; and the length of an incomplete frame) are compared with the model, and the oracle checks that the '
+         "messages carry exactly the entries due at that point of the model's state, once and in order, each message within the limits; "
+         '(5) presence batching — 0-60 (thorough 0-300) presences with limits {0..2^40}: every batch of the real '
+         'extract_next_presence_batch, the length of the real presences_message, its decoded entries and its bytes (compared with the Coq '
+         'encoder byte for byte); (6) the real send_request (through a one-line wrapper) on a substream over an in-memory carrier whose '
+         'codec limit is drawn from {0..2^40} on both sides of the size of the one message (0-60, thorough 0-300 wants): Ok/Err, the bytes '
+         'written, the decoded entries, the bytes compared with the Coq encoder; (7) blocks_message on 0-6 blocks given with their data '
+         '(0-300 B): the bytes compared with the Coq encoder; (8) end to end again — a send_request of 0-9 wants followed by a '
+         'send_response of 0-6 presences and 0-10 honest blocks (0 B-MAX_BATCH_SIZE+1) between the two nodes of stream 3: every '
+         'BitswapEvent::Request / Response of the remote user, message by message; non-trivial = trace of >= 6 numbers; distinct = '
+         'distinct (case, trace) pairs',
  'trusted_base': ['hash functions are abstract in the theorems (a function code -> data -> option digest); in the runs the digests are '
                   "computed by the harness with multihash-codetable's Code::digest (and with Python's hashlib for the stored corpus), "
                   'outside block_to_response',
@@ -65,26 +68,32 @@ ENTRY = {'coq_dir': 'C20',
                'complete ones only. Queues: queued commands always wait for exactly one answer of the service (no stuck queue, invariant '
                'over all histories) and every answer empties the queue or moves it on; a command for a peer that is gone is dropped '
                'silently or parked for the dial and then written completely and in order; peers do not interfere. Wantlists: what '
-               'send_request writes is what the peer reports, also when the request is split; entries are judged one by one. For every '
-               'queue, size mix and limits the block messages, the presence messages (second fix) and the request messages (third fix) are '
-               'non-empty, within the limits, and carry exactly what fits, once and in order; with the shipped constants every block <= '
-               'MAX_BATCH_SIZE, every presence and every want is sent. The sizes the batching counts are proved to be the byte lengths of '
-               'the protobuf encodings, so the bounds hold for bytes on the wire. The model is tied to bitswap/mod.rs by differential runs '
-               'of the hooked functions (entries and bytes), of the real event loop on in-memory substreams with a harness-fed service and '
-               'manager (including bulk commands that reach the shipped message limit), and of two nodes over TCP.',
- 'level_note': 'Holds for the tree with three `fix:` commits (F-C20a: batches bounded by data bytes only; F-C20b: all presences of a '
-               'response in one unsplit message; F-C20c: all wants of a request in one unsplit message — in all three cases an over-long '
-               'message was refused/dropped whole; the _insufficient theorems show the old code cannot respect a limit, the scaled '
-               'witnesses in corpus/C20 and the full-size ones of corpus/C20/node_bulk.case must now pass). NOT provided by litep2p and '
-               'therefore not claimed: matching of responses to requests. The loop keeps no want set; unsolicited and repeated blocks are '
-               'delivered (C20_only_requested_refuted, C20_no_duplicate_delivery_refuted, confirmed on the real loop); '
-               'C20_only_requested_with_want_filter / C20_no_duplicate_delivery_with_want_filter are about a client-side want set that '
-               'exists only in the model. Also observed, outside the property text: cancel entries of a wantlist are reported as wants '
-               '(C20_request_ignores_cancel); a command whose send fails half-way on an established substream is queued again whole, so '
-               'what was already written is written again on the next substream (C20_failed_send_retried_whole: at-least-once towards the '
-               'remote), while a queue flushed to a fresh substream is dropped at the first failure; no failure of any kind (refused dial, '
-               'dial failure, connection closed, write timeout) is reported to the user (C20_events_only_from_frames, '
-               'C20_send_to_gone_peer_dropped). Trusted: Coq kernel, extraction, harness and hooks; hash functions abstract.',
+               'send_request writes (one message) is what the peer reports; entries are judged one by one. For every queue, size mix and '
+               'limits the block messages and the presence messages (second fix) of a response are non-empty, within the limits, and carry '
+               'exactly what fits, once and in order; with the shipped constants every block <= MAX_BATCH_SIZE and every presence is sent; '
+               'every message that reaches the wire is within the limit (responses by batching, a request because the codec refuses a '
+               'longer one). The sizes the batching counts are proved to be the byte lengths of the protobuf encodings, so the bounds hold '
+               'for bytes on the wire. The model is tied to bitswap/mod.rs by differential runs of the hooked functions (entries and '
+               'bytes), of the real event loop on in-memory substreams with a harness-fed service and manager (including bulk commands '
+               'that reach the shipped message limit), and of two nodes over TCP.',
+ 'level_note': 'Holds for the tree with two `fix:` commits (F-C20a: batches bounded by data bytes only; F-C20b: all presences of a '
+               'response in one unsplit message — in both cases an over-long message was dropped whole; the _insufficient theorems show '
+               'the old code cannot respect a limit, the scaled witnesses in corpus/C20 and the full-size ones of '
+               'corpus/C20/node_bulk.case must now pass). NOT provided by litep2p and therefore not claimed: matching of responses to '
+               'requests. The loop keeps no want set; unsolicited and repeated blocks are delivered (C20_only_requested_refuted, '
+               'C20_no_duplicate_delivery_refuted, confirmed on the real loop); C20_only_requested_with_want_filter / '
+               'C20_no_duplicate_delivery_with_want_filter are about a client-side want set that exists only in the model. Also observed, '
+               'outside the property text: an outgoing request with more wants than fit one message (32 000 always fit, '
+               'C20_default_request_fits; about 95 000 CIDv1/sha2-256 wants do not) is refused by the codec and dropped together with what '
+               "is queued behind it — requests are outside C20's text; the model follows the code (C20_request_single_message, "
+               'C20_unsplit_request_insufficient, C20_oversized_request_refused, C20_oversized_request_drops_queue, '
+               'C20_flush_stops_at_oversized_request; corpus/C20/obs_oversized_request.case, node_bulk.case); cancel entries of a wantlist '
+               'are reported as wants (C20_request_ignores_cancel); a command whose send fails half-way on an established substream is '
+               'queued again whole, so what was already written is written again on the next substream (C20_failed_send_retried_whole: '
+               'at-least-once towards the remote), while a queue flushed to a fresh substream is dropped at the first failure; no failure '
+               'of any kind (refused dial, dial failure, connection closed, write timeout) is reported to the user '
+               '(C20_events_only_from_frames, C20_send_to_gone_peer_dropped). Trusted: Coq kernel, extraction, harness and hooks; hash '
+               'functions abstract.',
  'assumptions': ['no usize overflow in the size sums (explicit as `< 2^64` in the byte-length theorems)',
                  'the receiving peer in the end-to-end stream is litep2p itself',
                  'the service reports at most one connection per peer to the loop and answers every substream request and accepted dial',
